@@ -52,6 +52,18 @@ elif name=='M11_move_ctor_keeps_raw':
 			row.mFreeRaws = nullptr;''','''			row.mFreeRaws = nullptr;''')
 elif name=='M12_row_gets_private_head':
     sub(tab,'return RowProxy(&GetColumnList(), raw, &mCrew.GetFreeRaws());','static FreeRaws other(nullptr);\n\t\treturn RowProxy(&GetColumnList(), raw, &other);')
+elif name=='N1_extractraw_keeps_raw':
+    sub(row,'''			Raw* raw = mRaw;
+			mRaw = nullptr;
+			return raw;''','''			Raw* raw = mRaw;
+			return raw;''')
+elif name=='N3_movector_keeps_list_pointer':
+    sub(row,'''			row.mRaw = nullptr;
+			row.mFreeRaws = nullptr;''','''			row.mRaw = nullptr;''')
+elif name=='N4_move_assign_is_plain_swap':
+    sub(row,'''			DataRow(std::move(row)).Swap(*this);
+			return *this;''','''			Swap(row);
+			return *this;''')
 elif name.startswith('S') and name[1] in 'ABCD' and name[2]=='_':
     import subprocess
     src='/verif/props/C19/seeded_%s.diff' % name[1].lower()
